@@ -306,7 +306,7 @@ theorem best_case_state_ice (r : PredRecord α) (fu : FeatureUnits) (d : α) (du
 /-- C08 `best_case` as recorded in the state (BEV, PHEV), every unit configuration:
 `best_case_energy_state` adds the best-case energy E — a quantity in the rate's energy unit —
 converted to the feature's unit to `energy_electric`, and moves the charge by
-`-100 · E[battery unit] / capacity`, clamped.  (Before /repo fix 956a8b8 the code tagged E with the
+`-100 · E[battery unit] / capacity`, clamped.  (Before /repo fix 2aef62e the code tagged E with the
 battery's unit and used the raw number against the capacity; the theorem then needed
 `battery unit = rate's energy unit` and a counterexample stood beside it — the old witness is now
 `best_case_state_unit_mix_regression`.) -/
@@ -742,7 +742,7 @@ theorem cacheInUse_noCaches (v : Vehicle α) (s : VState α) :
 
 /-- C08 (cache policy of the wrong length): a record whose `float_cache_policy` does not have one
 `key_precisions` entry per model input (speed, grade) never serves an edge — the traversal fails
-with a cache error instead of keying the cache on a truncated key.  (Before /repo fix e91d220 `zip`
+with a cache error instead of keying the cache on a truncated key.  (Before /repo fix 428ce00 `zip`
 silently dropped inputs: with `key_precisions = [2]` the grade was not part of the key; the old
 counterexample is now `cache_key_length_regression`.  The vehicle builders reject such a policy
 when the configuration is read: `cachesConfigOk`.) -/
